@@ -121,6 +121,7 @@ type Run struct {
 	entryBinds map[string]Val
 	inputs     []inputVar // named symbolic inputs for model projection
 	modelIn    []inputVar
+	inlineMode int
 	oblNames   map[string]int
 	ghostUF    map[string]bool
 }
@@ -134,7 +135,12 @@ func (r *Run) warn(format string, a ...interface{}) {
 	r.warnings[fmt.Sprintf(format, a...)] = true
 }
 
-func (r *Run) emit(cmd string) { r.script = append(r.script, cmd) }
+func (r *Run) emit(cmd string) {
+	if r.inlineMode > 0 && strings.HasPrefix(cmd, "(assert") {
+		return // evaluating a pure call under a quantifier: nothing may be asserted about terms with bound variables
+	}
+	r.script = append(r.script, cmd)
+}
 
 func (r *Run) fresh(prefix string) string {
 	r.nconst++
@@ -153,6 +159,9 @@ func (r *Run) define(prefix, sort, expr string) string {
 	if !strings.HasPrefix(expr, "(") {
 		return expr // already atomic
 	}
+	if r.inlineMode > 0 {
+		return expr // terms with bound variables cannot be named outside their quantifier
+	}
 	if strings.HasPrefix(expr, "(ite ") {
 		// merged values appear inside quantifier patterns: they must be constants, not macros
 		return r.constOf(prefix, sort, expr)
@@ -164,6 +173,9 @@ func (r *Run) define(prefix, sort, expr string) string {
 
 // constOf introduces a declared constant equal to expr (unlike define, usable inside quantifier patterns).
 func (r *Run) constOf(prefix, sort, expr string) string {
+	if r.inlineMode > 0 {
+		return expr
+	}
 	n := r.declare(prefix, sort)
 	r.emit(app("assert", eq(n, expr)))
 	return n
